@@ -93,8 +93,8 @@ contract(M + "Scenario.run", props=P,
                  "bad-event-means-failed-or-undefined-found":
                      "implies(G_bad > old(G_bad), failed or len(runner._undefined_steps) > " + UNDEF0 + ")",
                  "own-hook-flag": "self.hook_failed == pre(self.hook_failed)",
-                 "running-means-all-earlier-passed":
-                     "implies(run_steps, not failed and not self.should_skip and "
+                 "running-means-all-earlier-passed-unless-continue-after-failed-step-is-on":
+                     "implies(run_steps and not self.continue_after_failed_step, not failed and not self.should_skip and "
                      "forall(lambda k: implies(0 <= k < _i, _at(k).status in %s)))" % PASSED,
                  "executed-count": "0 <= j <= _i and implies(run_steps, j == _i) and G_ncalls - pre(G_ncalls) <= j",
                  "steps-not-executed-have-no-executed-status":
